@@ -689,6 +689,11 @@ Definition enc_kind (k : skind) : sx :=
   Sym (s_ match k with KEmpty => "e" | KComment => "c" | KStmt => "s" | KFunc => "f" end).
 
 Definition format_case (x : sx) : sx :=
+  match x with
+  | Lst [Sym tag; Str t] =>
+      (* (shape "text"): the two text predicates of C07 alone, cross-checked by the harness against its own implementation *)
+      if str_eqb tag (s_ "shape") then Lst [sx_bool (shape_lines t); sx_bool (ends_one_nl t)] else Sym (s_ "decode-error")
+  | _ =>
   match dec_fprog x with
   | Some p =>
       let t := format current_fixes p in
@@ -698,4 +703,5 @@ Definition format_case (x : sx) : sx :=
            Lst (map enc_kind (skel_step (fix_nl current_fixes) (map stmt_kind p)));
            Str (strip_ws t)]
   | None => Sym (s_ "decode-error")
+  end
   end.
